@@ -93,6 +93,14 @@ def r1_r2_r4(repo, rep):
   fors = [h for h in loops if h.kind == 'for']
   rep.floor('loops enclosing the push', len(fors), 3)
   if len(fors) != 3 or len(loops) != 3:
+    # whatever the shape of the nest: leaving one of the loops around the push early drops the candidates not yet visited
+    outer_ = loops[0] if loops else None
+    if outer_ is not None:
+      body_ = [n for n in g.nodes if n.ast is not None and _inside(n, outer_.ast)]
+      early_ = [n for n in body_ if n.kind in ('break', 'return')]
+      rep.check(not early_, 'R1/full-iteration', 'no break/return inside the enumeration', f.qualname, '; '.join(n.text()[:40] for n in early_),
+                'the enumeration is left early by %s: the remaining feasible designs are never evaluated' % '; '.join(n.text()[:40] for n in early_),
+                f.loc(early_[0].ast) if early_ else f.loc())
     rep.undecided('R1/full-iteration', 'exhaustive_search', 'expected a nest of exactly three for-loops around the push (found %d)' % len(loops), f.loc())
     return None
   hS, hT, hC = fors
